@@ -19,8 +19,9 @@ EXPLANATION = (
     'the streaming reads, shutdown flushes then closes then replies with the store. (R5) the API handlers doc_open / '
     'doc_close evaluated: one forwarded open / close of the requested document, failure reported. (R6) the drop handler '
     'evaluated on {not open, 1, 2, 5 handles} against a store that refuses while the document is open: a refused drop '
-    'leaves the handle count untouched. NOT decided: behaviour with several concurrent clients beyond the single-consumer '
-    'loop.'
+    'leaves the handle count untouched. (R7) reply streams accepted before the actor stops are driven to their end before '
+    'anything is aborted (reports F25, known finding). NOT decided: behaviour with several concurrent clients beyond the '
+    'single-consumer loop.'
 )
 ASSUMPTIONS = ["the action loop is the only consumer of the action channel", "tracing macro expansions are effect-free"]
 
